@@ -15,12 +15,16 @@
 #include <stdexcept>
 
 #include "UpperHessenbergSchur.h"
+#include "../Util/VerifHooks.h"
 
 namespace Spectra {
 
 template <typename Scalar = double>
 class UpperHessenbergEigen
 {
+#ifdef SPECTRA_VERIF
+    friend struct ::SpectraVerifAccess;
+#endif
 private:
     using Index = Eigen::Index;
     using Matrix = Eigen::Matrix<Scalar, Eigen::Dynamic, Eigen::Dynamic>;
